@@ -17,27 +17,28 @@ type gen struct {
 	maxOps int
 	nops   int
 
-	ints         []string          // internal extension names to register
-	subs         map[string]string // events each extension will subscribe to
-	registered   map[string]bool
-	everNext     map[string]bool
-	rtHolding    bool // runtime has an invocation and has not responded
-	rtResponded  bool
-	invLeft      int
-	nextCaller   int
-	delivered    int
-	faults       int
-	sawBlocked   bool
-	sawRefusal   bool
-	lastBlocked  string
-	rtAsked      bool       // the runtime issued its first next in this generation
-	pre          [][]string // ops issued before anything else (fake process behaviours)
-	resetPending bool
+	ints                            []string          // internal extension names to register
+	subs                            map[string]string // events each extension will subscribe to
+	registered                      map[string]bool
+	everNext                        map[string]bool
+	rtHolding                       bool // runtime has an invocation and has not responded
+	rtResponded                     bool
+	invLeft                         int
+	nextCaller                      int
+	delivered                       int
+	faults                          int
+	sawBlocked                      bool
+	sawRefusal                      bool
+	lastBlocked                     string
+	rtAsked                         bool       // the runtime issued its first next in this generation
+	pre                             [][]string // ops issued before anything else (fake process behaviours)
+	resetPending                    bool
 	restorePolled, restoreRequested bool
+	gotShutdown                     map[string]bool
 }
 
 func newGen(r *rng.R, family string) *gen {
-	g := &gen{r: r, family: family, subs: map[string]string{}, registered: map[string]bool{}, everNext: map[string]bool{}}
+	g := &gen{r: r, family: family, subs: map[string]string{}, registered: map[string]bool{}, everNext: map[string]bool{}, gotShutdown: map[string]bool{}}
 	names := []string{"a", "b", "c"}
 	ne := r.Intn(4)
 	if family == "noext" {
@@ -45,6 +46,14 @@ func newGen(r *rng.R, family string) *gen {
 	}
 	if family == "sizes" {
 		ne = r.Intn(2)
+	}
+	if family == "limit" {
+		// enough extensions to reach the limit of ten (internal ones on top of 0..3 external ones,
+		// or — rarely — eleven external ones: the launch itself must be refused)
+		if r.Chance(1, 6) {
+			names = []string{"e00", "e01", "e02", "e03", "e04", "e05", "e06", "e07", "e08", "e09", "e10"}
+			ne = 11
+		}
 	}
 	if family == "restore" {
 		ne = r.Intn(2)
@@ -62,6 +71,9 @@ func newGen(r *rng.R, family string) *gen {
 	ni := r.Intn(3)
 	if family == "noext" {
 		ni = 0
+	}
+	if family == "limit" {
+		ni = 7 + r.Intn(6)
 	}
 	for i := 0; i < ni; i++ {
 		n := fmt.Sprintf("i%d", i)
@@ -159,6 +171,11 @@ func (g *gen) next(w *world) []string {
 			add(misuse, "ext", e, "nextnoid")
 			add(misuse, "ext", e, "nextunknownid")
 			add(misuse, "ext", e, "initerror", "Extension.Foo")
+			if g.gotShutdown[e] && (g.family == "faults" || g.family == "shutdown" || g.family == "chaos" || g.family == "timeouts") {
+				// an extension may report an exit error while it is being shut down
+				add(12, "ext", e, "exiterror", "Extension.ShutdownErr")
+				add(12, "exit", e, []string{"0", "1"}[g.r.Intn(2)])
+			}
 			add(misuse/2, "ext", e, "exiterror", "Extension.Bar")
 			add(misuse/2, "ext", e, "initerror", "notype")
 		}
@@ -309,7 +326,10 @@ func (g *gen) observe(ws []string, obs string) {
 			name := strings.TrimPrefix(e, "sup exec:extension-")
 			if i := strings.LastIndexByte(name, '-'); i >= 0 {
 				delete(g.registered, name[:i])
+				delete(g.gotShutdown, name[:i])
 			}
+		case strings.Contains(e, ".next=200,SHUTDOWN"):
+			g.gotShutdown[e[:strings.Index(e, ".next=")]] = true
 		case strings.Contains(e, ".register=200"):
 			g.registered[e[:strings.Index(e, ".register=")]] = true
 		}
